@@ -814,6 +814,11 @@ func hostC11(o *out, replay string) {
 			bg++
 		}
 	}
+	// one sync writer refuses a write: the OTHER stream is not affected
+	for _, proto := range []string{"netrpc", "grpc"} {
+		impl, pred := runSinkFaultOtherStream(proto)
+		o.emit("!C11.sink-fault proto="+proto+" stream=stdout at=2", impl, pred)
+	}
 	// a second host connection (after a first one that came and went, and without one)
 	for _, proto := range []string{"netrpc", "grpc"} {
 		for _, first := range []bool{false, true} {
